@@ -268,7 +268,7 @@ Section RSAValid.
       len sg = size /\ os2ip sg < n /\ len prefix + hash_size hid + 11 <= size /\
       (os2ip sg ^ e) mod n = os2ip (emsa size prefix (H hid signed)).
   Proof.
-    intros Ha. unfold verify_rsa_signature.
+    intros Ha. unfold verify_rsa_signature, verify_rsa_signature_pm. change (rsa_verify_with powmod) with rsa_verify.
     pose proof (rsa_tables_agree alg Ha) as T. unfold rsa_tables_ok in T.
     destruct (parse_rsa (k_pub k)) as [[n e]|].
     2:{ split; [discriminate | intros (? & ? & ? & ? & X & _); discriminate]. }
@@ -284,7 +284,7 @@ Section RSAValid.
     rewrite H_size in S.
     change stdlib_exponent_bits with 31.
     destruct (bits e <=? 31) eqn:Nar.
-    - apply N.leb_le in Nar. unfold stdlib_rsa_verify. rewrite H_size, N.eqb_refl, andb_true_r, <- T2.
+    - apply N.leb_le in Nar. unfold stdlib_rsa_verify_with. change (rsa_verify_with powmod) with rsa_verify. rewrite H_size, N.eqb_refl, andb_true_r, <- T2.
       destruct (N.odd n) eqn:O.
       + destruct (rsa_verify n e prefix (H hid signed) sg) eqn:V.
         * split; [intros _|reflexivity]. exists n, e, hid, prefix. pose proof (proj1 S eq_refl). tauto.
@@ -321,7 +321,7 @@ Section Sound.
        \/ verify_ecdsa_signature H ECP ECV k (s_alg s) signed sg = E_OK
        \/ verify_ed25519_signature EDV k signed sg = E_OK).
   Proof.
-    intros Hf Hp Ha Hfq Hcnt. unfold verify_signature.
+    intros Hf Hp Ha Hfq Hcnt. unfold verify_signature, verify_signature_pm.
     destruct (signature_binding k s rrset =? E_OK) eqn:B; cbn [negb].
     2:{ intros E. rewrite E in B. discriminate. }
     apply N.eqb_eq in B.
